@@ -167,7 +167,15 @@ func runAPI(res *bresult, c BCase, lb *cmttypes.LightBlock, t *tb, r *rec) (q st
 		if err == nil {
 			h := absValidators(c.Honest.Validators)
 			got := absValidators(vs)
-			if got.height != c.Height || !eqLists(got.vb, h.vb) {
+			// the bytes handed to the caller, decoded here without normalisation, must hash to
+			// what the verified header commits to
+			want := lb.NextValidatorsHash.Bytes() // fallback branch: lb is the light block below
+			if have {
+				want = lb.ValidatorsHash.Bytes() // answered from the light block of the height itself
+			}
+			if !bytes.Equal(got.hash, want) {
+				bad("GetValidators returned bytes whose own validator set hash is not the one the verified header commits to")
+			} else if got.height != c.Height || !eqLists(got.vb, h.vb) {
 				bad("GetValidators returned a validator set whose (key, power) list or height differ from the honest one")
 			} else if !have {
 				if !eqLists(a.rest, h.rest) {
@@ -231,6 +239,13 @@ func apiTwins(r *prng.R, tps []*tuple, chain, vals [][]byte) []BCase {
 				if i == last {
 					// the height after the latest trusted one: checked against NextValidatorsHash
 					tw.Kind, tw.Height = "api-validators", tp.height+1
+					cs = append(cs, tw)
+				} else {
+					// a height the light client can verify: answered from the light block, whatever
+					// (altered) set the provider has for it
+					tw.Kind, tw.Height, tw.Header = "api-validators", tps[i+1].height, tps[i+1].header
+					tw.Alter = "stored-height/" + bc.Alter
+					tw.Honest = &BCase{Kind: "validators", Alter: "genuine", Validators: &consensus.Validators{Height: tps[i+1].height, Meta: tps[i+1].valsProto}}
 					cs = append(cs, tw)
 				}
 			}
